@@ -9,7 +9,10 @@ import (
 	"fmt"
 	"io"
 	"math/rand"
+	"os"
+	"os/exec"
 	"runtime"
+	"runtime/debug"
 	"strings"
 	"sync"
 	"testing"
@@ -195,6 +198,45 @@ func equalChunks(a, b [][]byte) bool {
 		}
 	}
 	return true
+}
+
+// TestC09ChildManyPaddings: a peer that streams padding (zero bytes) for a long time before its next data chunk.
+// Decoding must take bounded memory whatever the number of consecutive paddings; the child lowers the goroutine
+// stack limit so that a decoder whose stack grows with that number dies quickly instead of after gigabytes.
+func TestC09ChildManyPaddings(t *testing.T) {
+	if os.Getenv("VERIF_C09_CHILD") == "" {
+		t.Skip("child of TestVerifC09 only")
+	}
+	debug.SetMaxStack(32 << 20)
+	n := 3 << 20
+	stream := make([]byte, n, n+8)
+	var tail bytes.Buffer
+	WriteData(&tail, []byte("after"))
+	stream = append(stream, tail.Bytes()...)
+	got, err := ReadData(bytes.NewReader(stream))
+	fmt.Printf("C09CHILD %q %v\n", got, err)
+}
+
+func c09ManyPaddings(r *vh.Run) {
+	cmd := exec.Command(os.Args[0], "-test.run", "^TestC09ChildManyPaddings$", "-test.count=1")
+	cmd.Env = append(os.Environ(), "VERIF_C09_CHILD=1", "VERIF_OUT=")
+	outb, _ := cmd.CombinedOutput()
+	got := "process-died"
+	for _, l := range strings.Split(string(outb), "\n") {
+		if strings.HasPrefix(l, "C09CHILD ") {
+			got = strings.TrimPrefix(l, "C09CHILD ")
+		}
+	}
+	line := "3 MiB of one-byte paddings, then the chunk \"after\" (child process with a 32 MiB stack limit)"
+	r.Case("paddings/millions-in-a-row", line, true)
+	if got != `"after" <nil>` {
+		tail := string(outb)
+		if len(tail) > 600 {
+			tail = tail[:600]
+		}
+		r.OracleFail("padding-run-not-decoded-in-bounded-memory", line, got+" | "+tail,
+			"padding is invisible and decoding allocates no more than the announced chunk, however many paddings come in a row")
+	}
 }
 
 func TestVerifC09(t *testing.T) {
@@ -455,6 +497,8 @@ func TestVerifC09(t *testing.T) {
 				"a prefix of more than three bytes must be rejected as too long without waiting for further bytes")
 		}
 	}
+
+	c09ManyPaddings(r)
 
 	// 6. independent streams written at the same time (each client session pads and frames its own carrier):
 	// what is read back from a stream is exactly what was written to it, whatever the other writers do.  The
